@@ -603,6 +603,10 @@ def rule_r6b(repo, run):
         raise AnalysisError("C12.R6: the user-code branches of _create_splicer were not found")
 
 
+import builtins as _builtins
+_BUILTIN_NAMES = set(dir(_builtins))
+
+
 def rule_r7(repo, run):
     R = run.rule("C12.R7", "user text reaches the block it names: splicer text given in YAML keeps every line, merges "
                            "are deep, and a named block is created for every declaration of its kind")
@@ -658,7 +662,7 @@ def rule_r7(repo, run):
     sf = sm.func("get_splicer_based_on_suffix")
     rets = [x for x in ast.walk(sf) if isinstance(x, ast.Return)]
     glob = [x.id for x in ast.walk(sf) if isinstance(x, ast.Name) and isinstance(x.ctx, ast.Load)
-            and x.id not in [a.arg for a in sf.args.args] and x.id not in ("os", "get_splicers")
+            and x.id not in [a.arg for a in sf.args.args] and x.id not in ("os", "get_splicers") and x.id not in _BUILTIN_NAMES
             and x.id not in [t.id for a in ast.walk(sf) if isinstance(a, ast.Assign) for t in ast.walk(a.targets[0]) if isinstance(t, ast.Name)]]
     run.check(R, "splicer.get_splicer_based_on_suffix:always-reads", not rets and not glob,
               "a splicer file can be skipped (%s): blocks of a file given on the command line are silently not read"
